@@ -190,7 +190,7 @@ package file
 //@   requires !$Flushed && !$AllWritten
 //@   only os.:
 //@   callpre bufio.Writer).Flush: $AllWritten
-//@   effect $Flushed := err == nil
+//@   havoc $AllWritten $Flushed
 //@   ensures err == nil ==> $Flushed
 
 //@ func createQ4
@@ -219,5 +219,5 @@ package file
 //@   callpre file.writeAxisRoots: $HdrWritten
 //@   callpre file.writeODS: $RootsWritten
 //@   callpre bufio.Writer).Flush: $AllWritten
-//@   effect $Flushed := err == nil
+//@   havoc $AllWritten $HdrWritten $RootsWritten $Flushed
 //@   ensures err == nil ==> $Flushed
